@@ -1453,7 +1453,7 @@ Proof.
   induction ax as [|ax IH]; intros [|sz shape] [|stride strides] i isvec outer nds nde order start en Hl Hp Hax Hse Hen;
     cbn [length] in *; try lia; inversion Hp as [|? ? Hsz Hp']; subst; rewrite apS_loop_step.
   - cbn [repeat app hd_sl tl nth upd] in *. unfold slice_details, check_slice.
-    replace (negb (en <? start) && negb (start <? 0) && negb ((1 =? 0) && (1 <? en - start)) && negb (sz <=? start)) with true by lia.
+    replace (negb (en <? start) && negb (start <? 0) && negb ((1 =? 0) && (1 <? en - start)) && negb (sz <=? start) && negb (1 <? 0)) with true by lia.
     replace (Z.min en sz) with en by lia.
     rewrite apS_loop_nil_slices by (try lia; exact Hp').
     rewrite ext_axis_1 by lia. unfold eff_step. replace (0 <? 1) with true by lia.
